@@ -31,6 +31,9 @@ Definition set_visible (b : bool) (x : section) : section :=
   match x with Sec t c _ f k d => Sec t c b f k d end.
 Definition set_folded (b : bool) (x : section) : section :=
   match x with Sec t c v _ k d => Sec t c v b k d end.
+(* card.select(...).title = t : the heading changes, the key under which the section is stored does not *)
+Definition set_title (t : pstr) (x : section) : section :=
+  match x with Sec _ c v f k d => Sec t c v f k d end.
 
 (* Section(title=name, content="") as created by _select(create=True) *)
 Definition fresh (name : pstr) (d : dict) : section := Sec name [] true false KText d.
